@@ -34,6 +34,12 @@ def main():
     if r.returncode != 0:
         print("patch does not apply:", r.stderr[:400]); return 2
     out = {}
+    # the evidence files describe runs on the unchanged tree: keep them out of the way of the runs on the changed tree
+    saved = {}
+    for p in props:
+        ep = os.path.join(ROOT, "evidence", f"{p}.json")
+        if os.path.exists(ep):
+            saved[ep] = open(ep).read()
     try:
         for p in props:
             t0 = time.time()
@@ -56,6 +62,8 @@ def main():
             print(p, "exit", r.returncode, "violations", len(viol), (sigs[0].get("signature") if sigs else ""), flush=True)
     finally:
         sh("git -C /repo checkout -- .")
+        for ep, text in saved.items():
+            open(ep, "w").write(text)
         left = sh("git -C /repo status --porcelain").stdout.strip()
         if left:
             print("WARNING: /repo not clean after undo:", left)
